@@ -120,6 +120,10 @@ func parseRelation(input *input, dependency *Dependency) error {
 		peek := input.Peek()
 		switch peek {
 		case 0, ',': /* EOF, or done with this relation! yay */
+			if len(ret.Possibilities) == 0 {
+				/* e.g. "a, |, b": nothing between the commas */
+				return nil
+			}
 			dependency.Relations = append(dependency.Relations, *ret)
 			return nil
 		case '|': /* Next Possi */
